@@ -60,6 +60,7 @@ type Exec struct {
 	catching int
 	abstract []string // reasons this path used an unrealisable stub result
 	lockDepth int // >0 while a sync.Mutex / RWMutex is held: writes are synchronised
+	pools    map[string][]Val
 	syncMaps map[string]*Map
 	onceDone map[string]bool
 	curFn    []*ssa.Function
